@@ -1,7 +1,12 @@
 package props
 
 import (
+	"fmt"
+
+	"github.com/coyim/otr3"
+
 	"testing"
+	"verif/harness/ref"
 
 	"verif/harness/sim"
 )
@@ -206,4 +211,82 @@ func TestProp_C03_Queued(t *testing.T) {
 		}
 	}
 	sim.MarkCompleted("C03queued", true)
+}
+
+// ---- the peer ends the session, in every way an honest or sloppy client may write that down (C03, C18) ----
+
+// PeerEndCase: otr3 talks to the reference, which ends the session with a disconnect message whose plaintext area is
+// written in the given way; afterwards Send must refuse the user's text and emit nothing until End() is called.
+type PeerEndCase struct {
+	V    int `json:"v"`
+	Tail int `json:"tail"`
+	Pre  int `json:"pre"` // rounds of traffic before
+}
+
+func runPeerEnd(c *PeerEndCase) *sim.Outcome {
+	o := &sim.Outcome{}
+	m := newMix(SessCfg{V: c.V, SeedA: 1030, SeedB: 1081, KeyA: 0, KeyB: 3}, 0)
+	if !m.Establish(c.Pre & 1) {
+		o.Discard = true
+		return o
+	}
+	for i := 0; i < c.Pre; i++ {
+		m.ASend([]byte(token(0, i+1)))
+		m.fromR(m.R.Send([]byte(token(1, i+1))))
+		m.Settle(nil, nil)
+	}
+	// text part empty, NUL, then the TLV area
+	disc := []byte{0, 0, 1, 0, 0} // NUL, type 1 (disconnected), length 0
+	tails := [][]byte{
+		nil,                                  // exactly the TLV
+		{0, 0, 0, 3, 0, 0, 0},                // followed by a padding TLV
+		{0},                                  // a stray byte
+		{0, 0, 0},                            // three stray bytes (shorter than a TLV header)
+		{0, 0, 0, 9, 1, 2},                   // a padding TLV cut short
+		{0x99, 0x99, 0, 2, 7, 7, 0, 0, 0, 0}, // an unknown TLV and an empty padding TLV
+	}
+	raw := append(append([]byte{}, disc...), tails[c.Tail%len(tails)]...)
+	nSec := len(m.A.Sec)
+	m.fromR(m.R.SendOpts(nil, ref.DataOpts{Flags: 1, RawPlain: raw}))
+	m.R.Encrypted = false
+	m.Settle(nil, nil)
+	if m.A.C.IsEncrypted() {
+		return o.Fail("C03/peer-end-missed", "the peer ended the session (disconnect TLV followed by %x in the same message) and the conversation still reports encrypted", tails[c.Tail%len(tails)])
+	}
+	gone := false
+	for _, e := range m.A.Sec[nSec:] {
+		if e == otr3.GoneInsecure {
+			gone = true
+		}
+	}
+	if !gone {
+		return o.Fail("C03/peer-end-missed", "the peer ended the session and no GoneInsecure was raised")
+	}
+	text := []byte(token(0, 99) + " typed after the peer left")
+	before := len(m.QtoR)
+	call := m.ASend(text)
+	if call.Err == nil || len(m.QtoR) != before {
+		return o.Fail("C03/finished-send", "Send after the peer ended the session returned err=%v and emitted %d message(s); it must refuse and emit nothing", call.Err, len(m.QtoR)-before)
+	}
+	o.Class(fmt.Sprintf("tail-%d", c.Tail%len(tails)))
+	o.NonTrivial = true
+	return o
+}
+
+func init() { reg("C03peerend", runPeerEnd) }
+
+func TestProp_C03_PeerEnds(t *testing.T) {
+	si, sn := sim.Shard()
+	idx := 0
+	for _, v := range []int{3, 2} {
+		for tail := 0; tail < 6; tail++ {
+			for pre := 0; pre < 3; pre++ {
+				idx++
+				if idx%sn == si {
+					sim.Judge(t, "C03peerend", &PeerEndCase{V: v, Tail: tail, Pre: pre})
+				}
+			}
+		}
+	}
+	sim.MarkCompleted("C03peerend", true)
 }
